@@ -34,6 +34,7 @@ def gen(rng, tier):
         inp["at"] = rng.choice([None, 0, 0, 0.05, 0.1])
         inp["by"] = rng.randrange(3)
         inp["lib"] = rng.random() < 0.2
+        inp["proxy"] = (not inp["lib"]) and rng.random() < 0.15     # the input is an f_proxy() future
     # discard: fire-and-forget use - the caller does not keep the returned future; the function must
     # still be called once all inputs have resolved
     spec = {"ins": ins, "fn_raises": rng.random() < 0.15, "settle": 5.0, "discard": rng.random() < 0.2, "falsy_exc": rng.random() < 0.15}
@@ -86,7 +87,7 @@ def run(spec, env):
     for i, inp in enumerate(ins):
         if inp["at"] is None:
             complete(i)
-    w = [MapFuture(raw[i]) if ins[i]["lib"] else raw[i] for i in range(n)]
+    w = [MapFuture(raw[i]) if ins[i]["lib"] else (F.f_proxy(raw[i]) if ins[i].get("proxy") else raw[i]) for i in range(n)]
     pos = [w[i] for i in range(n) if ins[i]["role"] == "pos"]
     kws = {ins[i]["role"]: w[i] for i in range(n) if ins[i]["role"] in KW}
     try:
